@@ -714,7 +714,7 @@ def r02_3(ctx, counts) -> RuleResult:
                                      f'operand moves the focus seen by the other operand '
                                      f'(//b intersect b from a non-root focus)'))
     counts['setop_operands'] = n_ops
-    if n_ops < 3:
+    if n_ops < 2:       # (one site per function when the operands are evaluated in a loop)
         raise AnalysisError(f'only {n_ops} set-operator operand evaluations located')
     # `concatenated` is only set by the union led on the operand it adopts
     setters = []
